@@ -78,6 +78,7 @@ inductive Err
   | dupName      -- ComponentConfigError: "duplicate name"
   | dupValue     -- DuplicatedConfigurationError (→ ComponentConfigError in apply_configuration_defaults)
   | frozen       -- ConfigurationError: frozen tree does not support assignment
+  | structure    -- ConfigurationError: a value at an interior key / a dictionary at a leaf (→ ComponentConfigError in apply_configuration_defaults)
   | noLayer      -- ConfigurationKeyError: no such layer / an update the generated table does not list
   | constraint   -- ConstraintError: add_components outside `initialization`
   | transition   -- InvalidTransitionError: `setup()` when the lifecycle already left `initialization`
@@ -115,9 +116,20 @@ namespace Config
 def has (c : Config) (layer : String) (p : Path) : Bool :=
   c.entries.any fun e => e.layer == layer && e.path == p
 
-/-- `LayeredConfigTree._set_with_metadata` + `ConfigNode.update` for one leaf -/
+/-- is the leaf path `p` the key `key` itself or below it (`key.…`) -/
+def under (key : String) (p : Path) : Bool := p == key || (key.toList ++ ['.']).isPrefixOf p.toList
+
+/-- the tree shape is shared by all layers: `p` cannot become a leaf if some existing leaf lies strictly
+below it (`p` is a sub-tree: "Can't assign a value to a LayeredConfigTree") or strictly above it (an
+existing leaf would have to become a sub-tree: "Can't assign a dictionary as a value to a ConfigNode") -/
+def conflicts (c : Config) (p : Path) : Bool :=
+  c.entries.any fun e => e.path != p && (under e.path p || under p e.path)
+
+/-- `LayeredConfigTree._set_with_metadata` (frozen test, then the shape test on the way down) +
+`ConfigNode.update` (layer test, one value per layer) for one leaf -/
 def update (c : Config) (layer : String) (p : Path) (v : Val) : Except Err Config :=
   if c.frozen then .error .frozen
+  else if c.conflicts p then .error .structure
   else if !layers.contains layer then .error .noLayer
   else if c.has layer p then .error .dupValue
   else .ok { c with entries := c.entries ++ [⟨layer, p, v⟩] }
@@ -138,9 +150,6 @@ def get (c : Config) (p : Path) : Option Val := getIn layers c p
 
 /-- `LayeredConfigTree.freeze` -/
 def freeze (c : Config) : Config := { c with frozen := true }
-
-/-- is the leaf path `p` the key `key` itself or below it (`key.…`) -/
-def under (key : String) (p : Path) : Bool := p == key || (key.toList ++ ['.']).isPrefixOf p.toList
 
 /-- `LayeredConfigTree.__delattr__` / `__delitem__` (`del cfg.a.b`, `del cfg["a"]`): the child is
 removed from `_children` together with everything below it. The library does NOT test `_frozen`
@@ -177,10 +186,12 @@ structure Sim where
 
 /-- a user value for the leaf `configuration.<p>`: `output_spec.update(model_specification, layer=…)`
 (what = "model_specification") or `output_spec.configuration.update(configuration, layer=…)`
-(what = "configuration"); the other updates of `build_model_specification` write the `components`
-and `plugins` subtrees, which are not part of `builder.configuration`. -/
+(what = "configuration"), or `model_specification.configuration.update(user_config_path, layer=…)` in
+`_get_default_specification` (what = "user_config_path": the file `~/vivarium.yaml`); the other updates
+of `build_model_specification` write the `components` and `plugins` subtrees, which are not part of
+`builder.configuration`. -/
 def userSet (s : Sim) (what : String) (p : Path) (v : Val) : Except Err Sim :=
-  if what ≠ "model_specification" ∧ what ≠ "configuration" then .error .noLayer else
+  if what ≠ "model_specification" ∧ what ≠ "configuration" ∧ what ≠ "user_config_path" then .error .noLayer else
   match layerOfUpdate what with
   | none => .error .noLayer
   | some l => do
